@@ -12,6 +12,8 @@ import tempfile
 from concurrent.futures import ThreadPoolExecutor
 
 VERIF = os.path.dirname(os.path.dirname(os.path.abspath(__file__)))
+ALL = ["C01", "C02", "C03", "C05", "C06", "C07", "C08", "C09", "C10", "C11", "C12", "C13", "C14", "C15", "C16", "C17", "C18", "C19"]
+FULL = False
 
 
 def sh(cmd, cwd=None, env=None):
@@ -28,6 +30,8 @@ def one(name, all_checks):
     meta = json.load(open(os.path.join(d, "meta.json")))
     pid = meta["property"]
     checks = [pid] + ([c for c in meta.get("caught_by", []) if c != pid] if all_checks else [])
+    if FULL:
+        checks = list(ALL)
     tmp = tempfile.mkdtemp(prefix="sreg_")
     wt = os.path.join(tmp, "wt")
     try:
@@ -41,6 +45,19 @@ def one(name, all_checks):
         for c in checks:
             rc, o = sh(f"./vf check {c}", cwd=VERIF, env=dict(os.environ, KIO_REPO=wt))
             res[c] = {"exit": rc, "violation": "VIOLATION property=" in o}
+            if FULL:
+                viol = [ln for ln in o.splitlines() if ln.startswith("VIOLATION")]
+                meta.setdefault("checks", {})[c] = {
+                    "exit": rc, "violations": len(viol), "first": (viol[0][:300] if viol else None),
+                    "undecided": sum(1 for ln in o.splitlines() if ln.startswith("UNDECIDED")),
+                    "summary": next((ln for ln in o.splitlines() if ln.startswith(c + " [")), "")[:200]}
+        if FULL:
+            cs = meta["checks"]
+            meta["caught_by"] = [c for c in ALL if cs.get(c, {}).get("exit") == 1]
+            meta["undecided_in"] = [c for c in ALL if cs.get(c, {}).get("exit") == 2]
+            meta["checker_error_in"] = [c for c in ALL if cs.get(c, {}).get("exit") not in (0, 1, 2, None)]
+            meta["re_evaluated_at_repo_head"] = sh("git -C /repo rev-parse --short HEAD")[1].strip()
+            json.dump(meta, open(os.path.join(d, "meta.json"), "w"), indent=1)
         return name, res
     finally:
         sh(f"git -C /repo worktree remove --force {wt}")
@@ -55,6 +72,8 @@ def main():
         jobs = int(args[i + 1])
         del args[i:i + 2]
     all_checks = "--all" in args
+    global FULL
+    FULL = "--full" in args
     names = [a for a in args if not a.startswith("-")] or sorted(
         n for n in os.listdir(os.path.join(VERIF, "seeded")) if os.path.exists(os.path.join(VERIF, "seeded", n, "patch.diff")))
     bad = 0
